@@ -100,7 +100,9 @@ def check(ctx: Ctx) -> None:
             for pname, pre in PRE_STATES.items():
                 exits, problems, it = eng.analyse_client(fi, list(ch), pre)
                 _judge(ctx, fi.file, fi, f"client {fi.qualname} on `{'.'.join(ch)}` from [{pname}]", exits, problems, rule_exit="TS7")
-    ctx.floor("external writers/readers of private view state", ext, 1)
+    # (no floor: a library in which nothing outside Sequence touches the private view state satisfies TS7 trivially -- the one
+    # such write today, `Bar.__init__` re-marking the absolute view stale after `add_relative_message`, is redundant)
+    ctx.ok("TS7", f"external writers/readers of private view state analysed: {ext}")
 
     conversions(ctx)
     ownership.check_no_internal_escape(ctx, "TS8")
